@@ -1,7 +1,7 @@
 # Table consumed by mkmanifest.py
 HOOK_COMMITS = []
 ENGINES = [
-    {"name": "sim", "path": "/verif/sim", "serves_properties": ["C20"],
+    {"name": "sim", "path": "/verif/sim", "serves_properties": ["C01","C02","C03","C04","C05","C06","C07","C10","C11","C12","C15","C16","C17","C18","C19","C20"],
      "kind_free_text": "single Go test binary (go1.26.8): seeded choice tape, batch driver, shrinker, replay files, evidence writer; one workload+oracle per property under sim/checks; stub parties under sim/world"},
 ]
 NOTES = ("Deterministic simulation with fault injection. One integer (VERIF_SEED) decides every run through the choice tape; "
@@ -19,3 +19,35 @@ chk("C20", "fault_enumeration",
     TB + " Cell Timeout=0&MaxRetryDelay=0 and MaxRetryDelay=0 past the deadline are not simulated (runtime select is unseeded).",
     "deterministic simulation on a fake clock (testing/synctest) with scripted getter faults; full grid enumeration",
     "DESIGN.md §4 C20", "sim")
+
+chk("C01", "fault_enumeration",
+    "Every single-bit flip of header, TD body, attestation key, QE report and QE auth data of seeded honest quotes is delivered and must be rejected; every subset of broken links {body signature, hash binding, QE signature} is built with the other links valid using the simulator's own QE/PCK keys; plus key/signature edge values, splices between two honest platforms, resizes, truncations and random mutations, at three option levels and both entry points. Enumeration is complete per world over the stated regions; worlds are seeded.",
+    TB + " A random bit flip or foreign-key signature is assumed not to produce a valid ECDSA signature.",
+    "deterministic simulation: simulated QE/PCK/CA keys build self-consistent forgeries; wire bit-flip fault enumeration", "DESIGN.md §4 C01", "sim")
+chk("C02", "exploration",
+    "Seeded search over (quote built under PKI A or look-alike PKI B) x (7 trusted pools), single-element substitutions, in-name-of forgeries, 9 role-confusion chains signed by the trusted root, and 28 root-of-trust configurations on a simulated disk; verdicts compared with 'chains through the quote's intermediate to a listed root and the leaf has the PCK role'.",
+    TB, "deterministic simulation with a second look-alike CA hierarchy, role-confusion certificates and faulty bundle files", "DESIGN.md §4 C02", "sim")
+chk("C03", "exploration",
+    "A Byzantine PCS endpoint on the Getter seam: ~95 structured faults plus body/header bit flips, in two flavours so that substitution of signed values by unsigned content is observable (genuine signed member says reject, injected unsigned member says accept).",
+    TB, "deterministic simulation of a Byzantine collateral endpoint with own JSON emitter; fault injection on the Getter seam", "DESIGN.md §4 C03", "sim")
+chk("C04", "exploration",
+    "Timelines (Intel publishes signed TCB Info, platform is patched, PCS serves a stale version) with boundary-biased level lists; every verdict and the level-reporting API are compared with an executable transcription of the property sentence. Hosted in the simulation because three signers must cooperate; the deciding element is the reference model.",
+    TB + " The reference model world.EvalTcb is a transcription of the property statement.", "deterministic simulation of CA + TCB signer + platform timelines against a reference model", "DESIGN.md §4 C04", "sim")
+chk("C05", "exploration",
+    "One seeded world under ~55 CRL situations (revoked serial sets incl. near-misses and up to 1000 entries, CRL signers, endpoint outcomes, several distribution points) with revocation on; two distinct TCB-signing certificates make each signer's revocation attributable.",
+    TB, "deterministic simulation of CRL issuers and CRL endpoints with fault injection", "DESIGN.md §4 C05", "sim")
+chk("C06", "fault_enumeration",
+    "Thirteen artifacts with thirteen distinct expiry instants; the complete grid {1 s before, at, 1 s after} x each of the five time-set fields x option levels, notBefore grid for path roles, skewed time sets and a monotone timeline, compared both ways with 'accept iff each artifact is in date at its own field'.",
+    TB, "deterministic simulation with a simulated clock driving Options.Now; boundary grid enumeration per world", "DESIGN.md §4 C06", "sim")
+chk("C07", "exploration",
+    "Timelines of signed QE identities (masks of any content, wrong lengths, level lists) and QE reports re-signed by the PCK key, compared with a transcription of the property sentence. Hosted, as C04.",
+    TB + " The reference model world.EvalQE is a transcription of the property statement.", "deterministic simulation of TCB signer + QE timelines against a reference model", "DESIGN.md §4 C07", "sim")
+chk("C11", "exploration",
+    "The fault-free configuration of the world engine: seeded honest worlds accepted at three levels in raw / parsed / field-built form, recovery within one call after faulted verifications through a shared options value, and the repository's Intel sample quotes under the embedded root.",
+    TB, "deterministic simulation, fault-free control configuration plus recovery after faults stop (bounded liveness: one call)", "DESIGN.md §4 C11", "sim")
+chk("C12", "exploration",
+    "Same world under all four option settings with a recording fetcher (monotonicity, no fetch without the option, CRL routes only with revocation, URL parameters), histories through one shared options value interleaved by the seeded scheduler at the Getter seam, and Options.Now unset on the fake clock with jumps between calls.",
+    TB, "deterministic simulation: recording fetcher, call histories over shared state under a seeded scheduler, testing/synctest fake clock with jumps", "DESIGN.md §4 C12", "sim")
+chk("C15", "fault_enumeration",
+    "The complete finite grid of device behaviours (report ioctl x quote ioctl x status x OutLen x buffer content x report data) and all provider behaviours against a reference model of the two-step protocol.",
+    TB, "deterministic simulation of a scripted faulty guest device / quote provider; full fault-grid enumeration", "DESIGN.md §4 C15", "sim")
